@@ -429,7 +429,8 @@ def execute(case):
         frontier = nxt
         if not frontier:
             break
-    return {'states': len(seen), 'transitions': transitions, 'checks': ncmp, 'nontrivial': nontrivial > 0,
+    return {'states': len(seen), 'transitions': transitions, 'traces': transitions, 'checks': ncmp,
+            'nontrivial': nontrivial > 0,
             'key': [f"{init}|{shape}|{prefix}|{i}" for i in range(nontrivial)],
             'outcome': sorted(kinds)[:50], 'violations': V}
 
